@@ -80,17 +80,18 @@ type SpecSet struct {
 	Axioms    []*Axiom
 	Contracts map[string]*Contract // by Key, per package dir ("" for externs)
 	Props     map[string][]string  // property id -> function keys / lemma names
+	Bounded   map[string][]string  // property id -> "pkgdir:TestName" bounded stand-ins
 	Ghost     []QVar                // ghost state components (name, sort text)
 }
 
 func newSpecSet() *SpecSet {
-	return &SpecSet{Funcs: map[string]*SpecFunc{}, Contracts: map[string]*Contract{}, Props: map[string][]string{}}
+	return &SpecSet{Funcs: map[string]*SpecFunc{}, Contracts: map[string]*Contract{}, Props: map[string][]string{}, Bounded: map[string][]string{}}
 }
 
 var directiveKW = map[string]bool{"pure": true, "opaque": true, "axiom": true, "lemma": true, "func": true, "extern": true,
 	"requires": true, "ensures": true, "modifies": true, "loop": true, "use": true, "names": true,
 	"expect_obligations": true, "ghost": true, "at": true, "trusted": true, "property": true, "noreturn": true,
-	"inline": true, "hint": true, "exit": true}
+	"inline": true, "hint": true, "exit": true, "bounded": true}
 
 // readDirectives returns logical directive lines (continuations joined).
 func readDirectives(path string, prefixed bool) ([]string, []int, error) {
@@ -264,6 +265,18 @@ func (ss *SpecSet) loadSpecFile(path string, prefixed bool, pkgDir string) error
 				return fail(i, "ghost var <name> <smt sort>")
 			}
 			ss.Ghost = append(ss.Ghost, QVar{f[2], strings.Join(f[3:], " ")})
+		case strings.HasPrefix(d, "bounded "):
+			rest := d[8:]
+			j := strings.Index(rest, ":")
+			if j < 0 {
+				return fail(i, "bounded ID: TestName, ...")
+			}
+			id := strings.TrimSpace(rest[:j])
+			for _, k := range strings.Split(rest[j+1:], ",") {
+				if k = strings.TrimSpace(k); k != "" {
+					ss.Bounded[id] = append(ss.Bounded[id], pkgDir+":"+k)
+				}
+			}
 		case strings.HasPrefix(d, "property "):
 			rest := d[9:]
 			j := strings.Index(rest, ":")
